@@ -48,6 +48,9 @@ structure Cfg where
   msTicks    : Nat := 1
   -- `listen = false`: the breaker has no event listener at all (no `transition` lines in the log; same behaviour)
   listen     : Bool := true
+  -- the classifier was installed by `classify_response`: the wrapped service has `Error = Infallible` (its errors are
+  -- encoded in the response), so its readiness cannot fail
+  respCls    : Bool := false
 deriving Repr
 
 /-- one recorded outcome -/
@@ -230,6 +233,13 @@ structure Falling where
   out    : Out
 deriving Repr
 
+/-- readiness of the wrapped service as the breaker's `poll_ready` reports it -/
+inductive Gate
+  | up        -- ready
+  | down      -- `Poll::Pending`
+  | failing   -- `Poll::Ready(Err(_))`
+deriving DecidableEq, Repr, Inhabited
+
 structure State where
   now     : Nat := 0
   circ    : Circuit := {}
@@ -239,6 +249,10 @@ structure State where
   seen    : List Nat := []
   serial  : Nat := 0
   log     : List (Nat × CEv) := []   -- ghost: every event so far, with its instant
+  gate    : Gate := .up              -- readiness of the wrapped service
+  -- `HealthTriggerable`: tasks spawned by `trigger_unhealthy` (`true`) / `trigger_healthy` (`false`) that the scheduler
+  -- has not run yet, in spawn order; each will take the breaker's lock and apply `force_open` / `force_closed`
+  pending : List Bool := []
 deriving Repr
 
 inductive Op
@@ -250,6 +264,10 @@ inductive Op
   | forceClosed
   | reset
   | views
+  | gate (g : Gate)            -- the wrapped service becomes ready / not ready / failing
+  | trigger (unhealthy : Bool) -- `HealthTriggerable::trigger_unhealthy` / `trigger_healthy`: synchronous, spawns a task
+  | yield                      -- the scheduler runs the tasks spawned so far
+  | elsewhere (n : Nat)        -- `n` inner calls were started through OTHER services (the serial counts all inner calls of the case)
 deriving Repr
 
 def classify (cfg : Cfg) (o : Out) (tag : Nat) : Bool :=
@@ -346,16 +364,43 @@ def dropRunning (s : State) (c : Nat) (r : Caller) : State :=
   let s := emit { s with running := s.running.eraseP (·.c == c) } [.innerDrop r.c r.k]
   { s with circ := releaseTrial s.circ r.ep }
 
+/-- `http_status()`: a function of the lock-free view -/
+def httpStatus : St → Nat
+  | .opened => 503
+  | _ => 200
+
+/-- `health_status()`: a function of the lock-free view -/
+def healthStatus : St → String
+  | .closed => "healthy"
+  | .halfOpen => "degraded"
+  | .opened => "unhealthy"
+
 def viewsString (cfg : Cfg) (c : Circuit) : String :=
   let (total, fail, succ, slow) := stats cfg c
-  s!"views state={c.st.name} sync={c.mirror.name} is_open={if c.mirror = .opened then 1 else 0} mstate={c.st.name} total={total} fail={fail} succ={succ} slow={slow}"
+  s!"views state={c.st.name} sync={c.mirror.name} is_open={if c.mirror = .opened then 1 else 0} mstate={c.st.name} total={total} fail={fail} succ={succ} slow={slow} http={httpStatus c.mirror} health={healthStatus c.mirror}"
+
+/-- a task spawned by a health trigger runs: one critical section, `force_open` / `force_closed` -/
+def applyTask (s : State) (unhealthy : Bool) : State :=
+  let tr := transitionTo s.circ (if unhealthy then .opened else .closed) s.now
+  emit { s with circ := tr.1 } tr.2
+
+/-- the scheduler gets to the spawned tasks: they run in spawn order -/
+def runTasks (s : State) : State := s.pending.foldl applyTask { s with pending := [] }
+
+/-- a request arrives while the wrapped service is not ready: `poll_ready` of the breaker is that of the wrapped service;
+the caller gives up (`notready`) or is handed the readiness error; the breaker is not involved -/
+def refuse (cfg : Cfg) (s : State) (c : Nat) : State :=
+  emit { s with seen := c :: s.seen }
+    [.result c (if s.gate = .failing ∧ cfg.respCls = false then .inner 9 0 else .notReady)]
 
 def stepS (cfg : Cfg) (s : State) (op : Op) : State :=
   match op with
   | .adv ms => { s with now := s.now + ms }
   | .arrive c sc tag fb =>
       if s.seen.contains c then s
-      else { s with fresh := s.fresh ++ [{ c := c, sc := sc, tag := tag, fb := fb }], seen := c :: s.seen }
+      else if s.gate = .up then
+        { s with fresh := s.fresh ++ [{ c := c, sc := sc, tag := tag, fb := fb }], seen := c :: s.seen }
+      else refuse cfg s c
   | .poll c =>
       match findFresh s.fresh c with
       | some f => pollFresh cfg s f
@@ -383,9 +428,136 @@ def stepS (cfg : Cfg) (s : State) (op : Op) : State :=
       let tr := reset s.circ s.now
       emit { s with circ := tr.1 } ([.manual "reset"] ++ tr.2)
   | .views => emit s [.views (viewsString cfg s.circ)]
+  | .gate g =>
+      emit { s with gate := g } [.manual (match g with | .up => "inner_up" | .down => "inner_down" | .failing => "inner_fail")]
+  | .trigger u =>
+      emit { s with pending := s.pending ++ [u] } [.manual (if u then "trigger_unhealthy" else "trigger_healthy")]
+  | .yield => runTasks (emit s [.manual "yield"])
+  | .elsewhere n => { s with serial := s.serial + n }
 
 def init : State := {}
 def run (cfg : Cfg) (ops : List Op) : State := ops.foldl (stepS cfg) init
+
+/-! ## the builder
+
+`CircuitBreakerLayer::builder()` / `circuit_breaker_builder()` start from the defaults of `CircuitBreakerConfigBuilder::new`
+(config.rs): threshold 0.5, count-based window of 100, wait 30 s, 1 permitted call, `minimum_number_of_calls` UNSET, no
+slow-call detection, the default classifier. Every setter overwrites its field in place; `failure_classifier` /
+`classify_response` change the builder's *type* and therefore rebuild it field by field. `build()` resolves the unset
+minimum to the FINAL window size ("Default: same as sliding_window_size"). -/
+
+inductive Setter
+  | fr (num den : Nat)
+  | size (n : Nat)
+  | wait (n : Nat)
+  | perm (n : Nat)
+  | wtype (time : Bool)
+  | wdur (n : Nat)
+  | minCalls (n : Nat)
+  | slow (n : Nat)
+  | sr (num den : Nat)
+  | cls (k : Nat)        -- `failure_classifier(..)`
+  | clsr (k : Nat)       -- `classify_response(..)`
+  | listenTr             -- `on_state_transition(..)`
+  | other                -- `name(..)`, the other `on_*` listeners: nothing the breaker's behaviour depends on
+deriving DecidableEq, Repr
+
+/-- the two setters that install a classifier (and re-type the builder) -/
+def Setter.isCls : Setter → Bool
+  | .cls _ => true
+  | .clsr _ => true
+  | _ => false
+
+def Setter.isMin : Setter → Bool
+  | .minCalls _ => true
+  | _ => false
+
+def Setter.isSize : Setter → Bool
+  | .size _ => true
+  | _ => false
+
+/-- the builder's fields -/
+structure BState where
+  frNum     : Nat := 1
+  frDen     : Nat := 2
+  timeBased : Bool := false
+  size      : Nat := 100
+  wdur      : Option Nat := none
+  wait      : Nat
+  permitted : Nat := 1
+  minCalls  : Option Nat := none
+  slow      : Option Nat := none
+  srNum     : Nat := 1
+  srDen     : Nat := 1
+  cls       : Nat := 0
+  respCls   : Bool := false
+  listen    : Bool := false
+deriving Repr
+
+def applySetter (b : BState) : Setter → BState
+  | .fr n d => { b with frNum := n, frDen := d }
+  | .size n => { b with size := n }
+  | .wait n => { b with wait := n }
+  | .perm n => { b with permitted := n }
+  | .wtype t => { b with timeBased := t }
+  | .wdur n => { b with wdur := some n }
+  | .minCalls n => { b with minCalls := some n }
+  | .slow n => { b with slow := some n }
+  | .sr n d => { b with srNum := n, srDen := d }
+  | .cls k => { b with cls := k, respCls := false }
+  | .clsr k => { b with cls := k, respCls := true }
+  | .listenTr => { b with listen := true }
+  | .other => b
+
+/-- `build()`: `msTicks` = clock ticks per millisecond (the builder's default wait is 30 s) -/
+def BState.toCfg (b : BState) (msTicks : Nat) (fallback : Bool) : Cfg :=
+  { countBased := !b.timeBased, size := b.size, windowMs := b.wdur.getD 1000,
+    minCalls := b.minCalls.getD b.size,
+    frNum := b.frNum, frDen := b.frDen, slowMs := b.slow, srNum := b.srNum, srDen := b.srDen,
+    waitMs := b.wait, permitted := b.permitted, cls := b.cls, fallback := fallback, msTicks := msTicks,
+    listen := b.listen, respCls := b.respCls }
+
+def newBuilder (msTicks : Nat) : BState := { wait := 30000 * msTicks }
+
+/-- the configuration `builder().s₁.s₂.….build()` ends up with -/
+def build (msTicks : Nat) (fallback : Bool) (chain : List Setter) : Cfg :=
+  (chain.foldl applySetter (newBuilder msTicks)).toCfg msTicks fallback
+
+/-- the preset constructors of `CircuitBreakerLayer` (layer.rs), as the setters they apply to a new builder -/
+def presetChain (msTicks : Nat) : String → List Setter
+  | "standard" => [.fr 1 2, .size 100, .wait (30000 * msTicks), .perm 3]
+  | "fast_fail" => [.fr 1 4, .size 20, .wait (10000 * msTicks), .perm 1]
+  | "tolerant" => [.fr 3 4, .size 200, .wait (60000 * msTicks), .perm 5]
+  | _ => []
+
+/-! ## several services made from one layer value
+
+Every `layer()` / `layer_fn()` call makes a breaker of its own (`CircuitBreaker::new`: a new `Circuit`, a new lock-free view);
+only clones of one service share a breaker. What the services of a case share is the configuration, the clock and the
+numbering of the inner calls. `Multi` is that: one `State` per service (absent = not built yet = `init`). -/
+
+structure Multi where
+  now    : Nat := 0
+  serial : Nat := 0
+  insts  : List (Nat × State) := []
+
+def Multi.get (m : Multi) (k : Nat) : State := (lookup m.insts k).getD init
+
+def setInst (l : List (Nat × State)) (k : Nat) (s : State) : List (Nat × State) :=
+  match l with
+  | [] => [(k, s)]
+  | (j, t) :: tl => if j = k then (k, s) :: tl else (j, t) :: setInst tl k s
+
+/-- service `k` catches up with the clock and with the inner calls started through other services -/
+def sync (cfg : Cfg) (now serial : Nat) (s : State) : State :=
+  stepS cfg (stepS cfg s (.adv (now - s.now))) (.elsewhere (serial - s.serial))
+
+/-- one operation on service `k` -/
+def stepM (cfg : Cfg) (m : Multi) (k : Nat) (op : Op) : Multi :=
+  let s' := stepS cfg (sync cfg m.now m.serial (m.get k)) op
+  { now := s'.now, serial := s'.serial, insts := setInst m.insts k s' }
+
+def runM (cfg : Cfg) (ops : List (Nat × Op)) : Multi := ops.foldl (fun m p => stepM cfg m p.1 p.2) {}
 
 /-! ## line protocol -/
 
@@ -394,18 +566,54 @@ def parseFrac (s : String) (d : Nat × Nat) : Nat × Nat :=
   | [a, b] => (a.toNat?.getD d.1, b.toNat?.getD d.2)
   | _ => d
 
-def parseCfg (kv : Kv) : Cfg :=
-  let size := kv.nat "size" 10
+def waitOf (s : String) : Nat := if s = "max" then 10 ^ 30 else s.toNat?.getD 1000
+
+/-- one item of the header word `chain=i1,i2,…` -/
+def parseSetter (s : String) : Option Setter :=
+  match s.splitOn ":" with
+  | ["fr", v] => let f := parseFrac v (1, 2); some (.fr f.1 f.2)
+  | ["size", v] => some (.size (v.toNat?.getD 0))
+  | ["wait", v] => some (.wait (waitOf v))
+  | ["perm", v] => some (.perm (v.toNat?.getD 0))
+  | ["wtype", v] => some (.wtype (v == "time"))
+  | ["wdur", v] => some (.wdur (v.toNat?.getD 0))
+  | ["min", v] => some (.minCalls (v.toNat?.getD 0))
+  | ["slow", v] => some (.slow (v.toNat?.getD 0))
+  | ["sr", v] => let f := parseFrac v (1, 1); some (.sr f.1 f.2)
+  | ["cls", v] => some (.cls (v.toNat?.getD 0))
+  | ["clsr", v] => some (.clsr (v.toNat?.getD 0))
+  | ["lis", "tr"] => some .listenTr
+  | ["lis", _] => some .other
+  | ["name", _] => some .other
+  | _ => none
+
+def parseChain (s : String) : List Setter := (s.splitOn ",").filterMap parseSetter
+
+/-- the classic header keys as the chain the harness applies for them (`all`: with the harness defaults for absent keys) -/
+def classicChain (kv : Kv) (all : Bool) : List Setter :=
+  let opt (k : String) (d : String) : Option String :=
+    match kv.get k with
+    | some v => some v
+    | none => if all then some d else none
   let fr := parseFrac (kv.str "fr" "1/2") (1, 2)
   let sr := parseFrac (kv.str "sr" "1/1") (1, 1)
-  { countBased := kv.str "wtype" "count" != "time",
-    size := size, windowMs := kv.nat "wdur" 1000,
-    minCalls := (kv.optNat "min").getD size,
-    frNum := fr.1, frDen := fr.2, slowMs := kv.optNat "slow", srNum := sr.1, srDen := sr.2,
-    waitMs := (if kv.str "wait" "" = "max" then 10 ^ 30 else kv.nat "wait" 1000), permitted := kv.nat "permitted" 1, cls := kv.nat "cls" 0,
-    fallback := kv.nat "fallback" 0 == 1,
-    msTicks := (if kv.str "tick" "ms" = "us" then 1000 else 1),
-    listen := kv.nat "listen" 1 != 0 }
+  ((opt "fr" "1/2").map (fun _ => Setter.fr fr.1 fr.2)).toList ++
+  ((opt "size" "10").map (fun v => Setter.size (v.toNat?.getD 10))).toList ++
+  ((opt "wait" "1000").map (fun v => Setter.wait (waitOf v))).toList ++
+  ((opt "permitted" "1").map (fun v => Setter.perm (v.toNat?.getD 1))).toList ++
+  (if kv.nat "listen" 1 != 0 then [Setter.listenTr] else []) ++
+  (if kv.str "wtype" "count" = "time" then [Setter.wtype true, .wdur (kv.nat "wdur" 1000)] else []) ++
+  ((kv.optNat "min").map Setter.minCalls).toList ++
+  ((kv.optNat "slow").map (fun n => [Setter.slow n, .sr sr.1 sr.2])).getD [] ++
+  (if kv.nat "cls" 0 != 0 then [Setter.cls (kv.nat "cls" 0)] else [])
+
+def parseCfg (kv : Kv) : Cfg :=
+  let msTicks := if kv.str "tick" "ms" = "us" then 1000 else 1
+  let chain :=
+    match kv.get "chain" with
+    | some ch => parseChain ch
+    | none => classicChain kv (kv.get "preset").isNone
+  build msTicks (kv.nat "fallback" 0 == 1) (presetChain msTicks (kv.str "preset" "builder") ++ chain)
 
 def parseOp (ws : List String) : Option Op :=
   match ws with
@@ -420,20 +628,49 @@ def parseOp (ws : List String) : Option Op :=
   | "manual" :: "force_open" :: _ => some .forceOpen
   | "manual" :: "force_closed" :: _ => some .forceClosed
   | "manual" :: "reset" :: _ => some .reset
+  | "manual" :: "inner_up" :: _ => some (.gate .up)
+  | "manual" :: "inner_down" :: _ => some (.gate .down)
+  | "manual" :: "inner_fail" :: _ => some (.gate .failing)
+  | "manual" :: "trigger_unhealthy" :: _ => some (.trigger true)
+  | "manual" :: "trigger_healthy" :: _ => some (.trigger false)
+  | "manual" :: "yield" :: _ => some .yield
   | "probe" :: _ => some .views
   | _ => none
 
+/-- which service an operation line addresses (`svc=<k>`, default 0); callers are bound to the service they arrived at -/
+def svcOf (ws : List String) : Option Nat := (parseKv ws).optNat "svc"
+
+structure MState where
+  multi  : Multi := {}
+  owner  : List (Nat × Nat) := []     -- caller -> service
+
 def machine : Machine where
-  σ := Cfg × State
-  init kv := (parseCfg kv, init)
-  step := fun (cfg, s) ws =>
+  σ := Cfg × MState
+  init kv := (parseCfg kv, {})
+  step := fun (cfg, ms) ws =>
     match parseOp ws with
     | some op =>
-        let s' := stepS cfg s op
+        let k : Nat :=
+          match op with
+          | .poll c => (lookup ms.owner c).getD 0
+          | .drop c => (lookup ms.owner c).getD 0
+          | _ => (svcOf ws).getD 0
+        let owner := match op with
+          | .arrive c _ _ _ => (c, k) :: ms.owner
+          | _ => ms.owner
+        let s := sync cfg ms.multi.now ms.multi.serial (ms.multi.get k)
+        let m' := stepM cfg ms.multi k op
+        let s' := m'.get k
         -- without a listener nobody is told about transitions: they are not part of the observable log
         let evs := (s'.log.drop s.log.length).filter (fun p => cfg.listen || !(p.2 matches .transition ..))
-        ((cfg, s'), evs.map (fun p => p.2.toEv))
-    | none => ((cfg, s), [])
-  now := fun (_, s) => s.now
+        let tagged (e : CEv) : CEv :=
+          if k = 0 then e else
+          match e with
+          | .manual w => .manual s!"{w} svc={k}"
+          | .views v => .views s!"{v} svc={k}"
+          | e => e
+        ((cfg, { multi := m', owner := owner }), evs.map (fun p => (tagged p.2).toEv))
+    | none => ((cfg, ms), [])
+  now := fun (_, ms) => ms.multi.now
 
 end TR.Circuit
